@@ -84,7 +84,13 @@ func genPkgContents(r *rng.R, t *SrcTree) []wire.Content {
 			}
 			cs = append(cs, wire.Content{Src: rng.Pick(r, []string{filepath.Join(t.Root, "tree"), filepath.Join(t.Root, "tree/sub")}), Dst: fmt.Sprintf("/usr/share/app/t%d", i), Type: "tree", Info: fi(), Packager: tag()})
 		case 9:
-			cs = append(cs, wire.Content{Dst: fmt.Sprintf("/var/log/app%d.log", i), Type: "ghost", Info: fi(), Packager: tag()})
+			// a ghost may name a source (a template of the file created at run time): it is read for nothing – the entry
+			// stays header-only
+			gsrc := ""
+			if r.Chance(1, 2) {
+				gsrc = rng.Pick(r, t.Files)
+			}
+			cs = append(cs, wire.Content{Src: gsrc, Dst: fmt.Sprintf("/var/log/app%d.log", i), Type: "ghost", Info: fi(), Packager: tag()})
 		case 12:
 			// names that begin with a dot directly under the root and deeper
 			switch r.Intn(4) {
